@@ -7,7 +7,7 @@ res=json.load(open('seeded/results.json'))
 rows=[]
 for f in sorted(glob.glob('seeded/C*/meta.json')):
     m=json.load(open(f)); sid=m['id']; r=res.get(sid,{})
-    own=', '.join(r.get('own_property_rules',[])) or '**missed**'
+    own=', '.join(r.get('own_property_rules',[])) or ('(neutralised: see F29)' if 'neutralised' in m.get('status','') else '**missed**')
     oth=', '.join(r.get('other_rules',[]))
     note=''
     d=m.get('detected_by','')
